@@ -362,6 +362,7 @@ namespace Pistache::Async
                 {
                     // Settling the derived promise races with a then() on it
                     // from another thread: take its lock, as Rejection does
+                    PISTACHE_VERIF_BEFORE_LOCK(chain_->mtx, "derived:lock");
                     std::unique_lock<std::mutex> guard(chain_->mtx);
                     PISTACHE_VERIF_YIELD("continuable.reject:before-derived-store");
                     chain_->exc   = e.exc;
@@ -449,6 +450,7 @@ namespace Pistache::Async
                 void doReject(const std::shared_ptr<CoreT<T>>& core) override
                 {
                     reject_(core->exc);
+                    PISTACHE_VERIF_BEFORE_LOCK(this->chain_->mtx, "derived:lock");
                     std::unique_lock<std::mutex> guard(this->chain_->mtx);
                     PISTACHE_VERIF_YIELD("continuation.doReject:before-derived-walk");
                     for (const auto& req : this->chain_->requests)
@@ -463,6 +465,7 @@ namespace Pistache::Async
                     typedef typename std::decay<Ret>::type CleanRet;
                     // Settling the derived promise races with a then() on it
                     // from another thread: take its lock, as Resolver does
+                    PISTACHE_VERIF_BEFORE_LOCK(this->chain_->mtx, "derived:lock");
                     std::unique_lock<std::mutex> guard(this->chain_->mtx);
                     PISTACHE_VERIF_YIELD("continuation.finishResolve:before-derived-store");
                     this->chain_->template construct<CleanRet>(std::forward<Ret>(ret));
@@ -501,6 +504,7 @@ namespace Pistache::Async
                 void doReject(const std::shared_ptr<CoreT<void>>& core) override
                 {
                     reject_(core->exc);
+                    PISTACHE_VERIF_BEFORE_LOCK(this->chain_->mtx, "derived:lock");
                     std::unique_lock<std::mutex> guard(this->chain_->mtx);
                     PISTACHE_VERIF_YIELD("continuation.doReject:before-derived-walk");
                     for (const auto& req : this->chain_->requests)
@@ -515,6 +519,7 @@ namespace Pistache::Async
                     typedef typename std::remove_reference<Ret>::type CleanRet;
                     // Settling the derived promise races with a then() on it
                     // from another thread: take its lock, as Resolver does
+                    PISTACHE_VERIF_BEFORE_LOCK(this->chain_->mtx, "derived:lock");
                     std::unique_lock<std::mutex> guard(this->chain_->mtx);
                     PISTACHE_VERIF_YIELD("continuation.finishResolve:before-derived-store");
                     this->chain_->template construct<CleanRet>(std::forward<Ret>(ret));
@@ -639,6 +644,7 @@ namespace Pistache::Async
 
                     void operator()(const PromiseType& val)
                     {
+                        PISTACHE_VERIF_BEFORE_LOCK(chainCore->mtx, "derived:lock");
                         std::unique_lock<std::mutex> guard(chainCore->mtx);
                         PISTACHE_VERIF_YIELD("chainer:before-derived-store");
                         chainCore->construct<PromiseType>(val);
@@ -667,6 +673,7 @@ namespace Pistache::Async
                     promise.then(std::move(chainer), [weakPtr](std::exception_ptr exc) {
                         if (auto core = weakPtr.lock())
                         {
+                            PISTACHE_VERIF_BEFORE_LOCK(core->mtx, "derived:lock");
                             std::unique_lock<std::mutex> guard(core->mtx);
                             core->exc   = std::move(exc);
                             core->state = State::Rejected;
@@ -723,6 +730,7 @@ namespace Pistache::Async
 
                     void operator()(const PromiseType& val)
                     {
+                        PISTACHE_VERIF_BEFORE_LOCK(chainCore->mtx, "derived:lock");
                         std::unique_lock<std::mutex> guard(chainCore->mtx);
                         PISTACHE_VERIF_YIELD("chainer:before-derived-store");
                         chainCore->construct<PromiseType>(val);
@@ -770,6 +778,7 @@ namespace Pistache::Async
                     auto chainer = makeChainer(promise);
                     promise.then(std::move(chainer), [=](std::exception_ptr exc) {
                         auto core   = this->chain_;
+                        PISTACHE_VERIF_BEFORE_LOCK(core->mtx, "derived:lock");
                         std::unique_lock<std::mutex> guard(core->mtx);
                         core->exc   = std::move(exc);
                         core->state = State::Rejected;
